@@ -246,9 +246,151 @@ namespace
     return ss.str ();
   }
 
+  unsigned long g_api_reads = 0;
+
+  void
+  api_bad (char const *what, std::string const &detail)
+  {
+    ++g_events.m_violations;
+    g_events.m_ev.push_back (std::string ("{\"call\":") + jstr (what)
+			     + ",\"bad\":true,\"accessor\":true,\"msg\":"
+			     + jstr (detail) + "}");
+  }
+
+  // Every value that is serialised is also read through the PUBLIC accessors
+  // of libzwerg.h / libzwerg-dw.h; what they return has to be what the value
+  // holds (the serialisation below reads the internals).  Exactly one of the
+  // zw_value_is_* predicates may hold.
+  void
+  api_check (value const &v)
+  {
+    zw_value const *z = &v;
+    int kinds = zw_value_is_const (z) + zw_value_is_str (z) + zw_value_is_seq (z)
+      + zw_value_is_dwarf (z) + zw_value_is_cu (z) + zw_value_is_die (z)
+      + zw_value_is_attr (z) + zw_value_is_llelem (z) + zw_value_is_llop (z)
+      + zw_value_is_aset (z) + zw_value_is_elfsym (z);
+    bool known = v.is <value_cst> () || v.is <value_str> () || v.is <value_seq> ()
+      || v.is <value_dwarf> () || v.is <value_cu> () || v.is <value_die> ()
+      || v.is <value_attr> () || v.is <value_loclist_elem> ()
+      || v.is <value_loclist_op> () || v.is <value_aset> ()
+      || v.is <value_symbol> ();
+    ++g_api_reads;
+    if (kinds != (known ? 1 : 0))
+      api_bad ("zw_value_is_*", "number of type predicates that hold: "
+	       + std::to_string (kinds));
+    if (zw_value_pos (z) != v.get_pos ())
+      api_bad ("zw_value_pos", "differs from the value's position");
+
+    if (auto cu = value::as <value_cu> (&v))
+      {
+	if (! zw_value_is_cu (z) || zw_value_cu_offset (z) != cu->get_offset ()
+	    || zw_value_cu_cu (z) != &const_cast <value_cu *> (cu)->get_cu ())
+	  api_bad ("zw_value_cu_*", "offset or Dwarf_CU differs");
+      }
+    else if (auto d = value::as <value_die> (&v))
+      {
+	Dwarf_Die a = zw_value_die_die (z), b = d->get_die ();
+	if (! zw_value_is_die (z) || a.addr != b.addr || a.cu != b.cu)
+	  api_bad ("zw_value_die_die", "another DIE");
+	zw_value const *dw = wrap ("zw_value_die_dwarf", [&] (zw_error **e) {
+	    return zw_value_die_dwarf (z, e); });
+	if (dw != nullptr && ! zw_value_is_dwarf (dw))
+	  api_bad ("zw_value_die_dwarf", "not a Dwarf value");
+      }
+    else if (auto a = value::as <value_attr> (&v))
+      {
+	Dwarf_Attribute x = zw_value_attr_attr (z), y = a->get_attr ();
+	if (! zw_value_is_attr (z) || x.code != y.code || x.form != y.form
+	    || x.valp != y.valp || x.cu != y.cu)
+	  api_bad ("zw_value_attr_attr", "another attribute");
+	zw_value const *dw = wrap ("zw_value_attr_dwarf", [&] (zw_error **e) {
+	    return zw_value_attr_dwarf (z, e); });
+	if (dw != nullptr && ! zw_value_is_dwarf (dw))
+	  api_bad ("zw_value_attr_dwarf", "not a Dwarf value");
+      }
+    else if (auto le = value::as <value_loclist_elem> (&v))
+      {
+	size_t n = ~(size_t) 0;
+	Dwarf_Op *ops = zw_value_llelem_expr (z, &n);
+	Dwarf_Attribute x = zw_value_llelem_attribute (z),
+	  y = const_cast <value_loclist_elem *> (le)->get_attr ();
+	if (! zw_value_is_llelem (z)
+	    || zw_value_llelem_low (z) != le->get_low ()
+	    || zw_value_llelem_high (z) != le->get_high ()
+	    || n != le->get_exprlen () || ops != le->get_expr ()
+	    || x.code != y.code || x.valp != y.valp)
+	  api_bad ("zw_value_llelem_*", "low/high/expression/attribute differ");
+      }
+    else if (auto lo = value::as <value_loclist_op> (&v))
+      {
+	Dwarf_Attribute x = zw_value_llop_attribute (z),
+	  y = const_cast <value_loclist_op *> (lo)->get_attr ();
+	if (! zw_value_is_llop (z) || zw_value_llop_op (z) != lo->get_dwop ()
+	    || x.code != y.code || x.valp != y.valp)
+	  api_bad ("zw_value_llop_*", "operation or attribute differ");
+      }
+    else if (auto as = value::as <value_aset> (&v))
+      {
+	auto const &cov = as->get_coverage ();
+	bool ok = zw_value_is_aset (z) && zw_value_aset_length (z) == cov.size ();
+	for (size_t i = 0; ok && i < cov.size (); ++i)
+	  {
+	    zw_aset_pair p = zw_value_aset_at (z, i);
+	    ok = p.start == cov.at (i).start && p.length == cov.at (i).length;
+	  }
+	if (! ok)
+	  api_bad ("zw_value_aset_*", "ranges differ");
+      }
+    else if (auto sy = value::as <value_symbol> (&v))
+      {
+	GElf_Sym a = zw_value_elfsym_symbol (z), b = sy->get_symbol ();
+	if (! zw_value_is_elfsym (z) || zw_value_elfsym_symidx (z) != sy->get_symidx ()
+	    || strcmp (zw_value_elfsym_name (z), sy->get_name ()) != 0
+	    || a.st_value != b.st_value || a.st_size != b.st_size
+	    || a.st_info != b.st_info || a.st_other != b.st_other
+	    || a.st_shndx != b.st_shndx || a.st_name != b.st_name)
+	  api_bad ("zw_value_elfsym_*", "index/name/symbol differ");
+	zw_value const *dw = wrap ("zw_value_elfsym_dwarf", [&] (zw_error **e) {
+	    return zw_value_elfsym_dwarf (z, e); });
+	if (dw != nullptr)
+	  {
+	    if (! zw_value_is_dwarf (dw))
+	      api_bad ("zw_value_elfsym_dwarf", "not a Dwarf value");
+	    else
+	      wrap ("zw_value_dwarf_machine", [&] (zw_error **e) {
+		  return zw_value_dwarf_machine (dw, e); });
+	  }
+      }
+    else if (auto dw = value::as <value_dwarf> (&v))
+      {
+	char const *n = zw_value_dwarf_name (z);
+	if (! zw_value_is_dwarf (z) || n == nullptr || dw->get_fn () != n
+	    || zw_value_dwarf_dwfl (z) == nullptr)
+	  api_bad ("zw_value_dwarf_*", "name or Dwfl differ");
+      }
+    else if (auto c = value::as <value_cst> (&v))
+      {
+	constant const &k = c->get_constant ();
+	bool sg = zw_value_const_is_signed (z);
+	if (sg != k.value ().is_signed ()
+	    || (sg ? zw_value_const_i64 (z) != k.value ().sval ()
+		   : zw_value_const_u64 (z) != k.value ().uval ()))
+	  api_bad ("zw_value_const_*", "signedness or number differ");
+      }
+    else if (auto q = value::as <value_seq> (&v))
+      {
+	if (zw_value_seq_length (z) != q->get_seq ()->size ())
+	  api_bad ("zw_value_seq_length", "differs");
+	for (size_t i = 0; i < q->get_seq ()->size (); ++i)
+	  if (zw_value_seq_at (z, i) != (*q->get_seq ())[i].get ())
+	    api_bad ("zw_value_seq_at", "another element");
+      }
+  }
+
   std::string
   ser_value (value const &v)
   {
+    api_check (v);
     std::stringstream ss;
     ss << "{\"p\":" << v.get_pos () << ",";
     if (auto c = value::as <value_cst> (&v))
@@ -1077,6 +1219,7 @@ namespace
 #else
     ss << ",\"hooks\":false";
 #endif
+    ss << ",\"api_accessor_reads\":" << g_api_reads;
     ss << ",\"live\":{\"q\":" << g_queries.size () << ",\"r\":"
        << g_results.size () << ",\"v\":" << g_values.size ()
        << ",\"s\":" << g_stacks.size () << "}";
